@@ -14,7 +14,7 @@ from declib2 import fill, Dec2, gen_block, spec, model1, has_zero_offset
 from capi import Lib
 from vlib import Oracle, build_lib, hx, md5
 
-THEOREMS = ["C05_valid_decodes", "C05_valid_decodes_safe", "C05_continue_step", "C05_success_sound", "C05_success_sound_strict_refuted", "C05_inplace_margin", "C05_fast_valid", "C05_fast_usingDict_valid", "C05_fast_continue_step", "C05_inplace_step_footprint", "C05_inplace_footprint_partial", "C05_inplace_decodes", "C05_inplace_decodes_any_margin", "C05_inplace_margin32_refuted", "C05_continue_session", "C05_session_init", "C05_continue_session_contiguous", "C05_continue_session_ring", "C05_continue_three_segments_refuted", "C05_ring_min_refuted", "C05_fast_continue_session", "C05_fast_continue_session_contiguous", "C05_fast_continue_session_ring", "C05_ring_margin_const"]
+THEOREMS = ["C05_valid_decodes", "C05_valid_decodes_safe", "C05_continue_step", "C05_success_sound", "C05_success_sound_strict_refuted", "C05_inplace_margin", "C05_fast_valid", "C05_fast_usingDict_valid", "C05_fast_continue_step", "C05_inplace_step_footprint", "C05_inplace_footprint_partial", "C05_inplace_decodes", "C05_inplace_decodes_any_margin", "C05_inplace_margin32_refuted", "C05_continue_session", "C05_session_init", "C05_continue_session_contiguous", "C05_continue_session_ring", "C05_continue_three_segments_refuted", "C05_ring_min_refuted", "C05_fast_continue_session", "C05_fast_continue_session_contiguous", "C05_fast_continue_session_ring", "C05_ring_margin_const", "C05_ring_wrap_eq", "C05_ring_wrap_block"]
 ORACLES = ["block", "dec2"]
 CORRESPONDENCE = [
     "dec_generic/decompress_usingDict model == LZ4_decompress_safe(_usingDict) on valid blocks (return value, whole destination image), fast loop on",
